@@ -29,6 +29,8 @@ struct Scenario {
     sim_source: bool,
     /// a second content pack handed to finalize() as an "extra" pack in its own atomic file
     extra: bool,
+    /// the older container at the destination was made with another packaging
+    old_packaging: Option<Packaging>,
     seed: u64,
 }
 
@@ -61,8 +63,29 @@ fn scenarios(seed: u64, tier: Tier) -> Vec<Scenario> {
                         preexisting,
                         sim_source: false,
                         extra: false,
+                        old_packaging: None,
                         seed: simcore::prng::hash_label(seed, "c09-scenario", k),
                     });
+                    if preexisting && comp == Comp::None {
+                        // the same, over an older container of a different packaging
+                        let other = match packaging {
+                            Packaging::BasicOne => Packaging::BasicTwo,
+                            Packaging::BasicTwo => Packaging::BasicNoConcat,
+                            _ => Packaging::BasicOne,
+                        };
+                        k += 1;
+                        out.push(Scenario {
+                            id: format!("{}-{}-n{}-old-{}", packaging.name(), comp.name(), n, other.name()),
+                            packaging,
+                            comp,
+                            n,
+                            preexisting,
+                            sim_source: false,
+                            extra: false,
+                            old_packaging: Some(other),
+                            seed: simcore::prng::hash_label(seed, "c09-scenario-x", k),
+                        });
+                    }
                     k += 1;
                 }
             }
@@ -76,6 +99,7 @@ fn scenarios(seed: u64, tier: Tier) -> Vec<Scenario> {
             preexisting: false,
             sim_source: true,
             extra: false,
+            old_packaging: None,
             seed: simcore::prng::hash_label(seed, "c09-scenario-sim", k),
         });
         k += 1;
@@ -89,6 +113,7 @@ fn scenarios(seed: u64, tier: Tier) -> Vec<Scenario> {
                 preexisting: false,
                 sim_source: false,
                 extra: true,
+                old_packaging: None,
                 seed: simcore::prng::hash_label(seed, "c09-scenario-extra", k),
             });
             k += 1;
@@ -129,7 +154,7 @@ fn logical_for(s: &Scenario, old: bool) -> Logical {
         .collect();
     Logical {
         comp: s.comp,
-        packaging: s.packaging,
+        packaging: if old { s.old_packaging.unwrap_or(s.packaging) } else { s.packaging },
         n_packs: if s.extra && !old { 2 } else { 1 },
         contents,
         schema: SchemaSpec {
@@ -256,6 +281,11 @@ pub fn child_main(args: &Args) -> ! {
         preexisting: sc["preexisting"].as_bool().unwrap(),
         sim_source: sc["sim_source"].as_bool().unwrap(),
         extra: sc["extra"].as_bool().unwrap_or(false),
+        old_packaging: sc["old_packaging"].as_str().map(|p| match p {
+            "basic-one" => Packaging::BasicOne,
+            "basic-two" => Packaging::BasicTwo,
+            _ => Packaging::BasicNoConcat,
+        }),
         seed: sc["seed"].as_u64().unwrap(),
     };
     let logical = logical_for(&s, old);
@@ -577,6 +607,38 @@ fn judge(
                     "bad",
                 );
             }
+            // the old entry point is still there: files of the old container that the new creation
+            // does not produce itself must not have been touched
+            let produced: Vec<String> = {
+                let mut v: Vec<String> = gen::expected_files(s.packaging, case_dir, NAME)
+                    .iter()
+                    .map(|p| p.file_name().unwrap().to_string_lossy().to_string())
+                    .collect();
+                if s.extra {
+                    v.push(format!("{NAME}.x2.jbkc"));
+                }
+                v
+            };
+            for (name, bytes) in &old.files {
+                if produced.contains(name) {
+                    continue;
+                }
+                match std::fs::read(case_dir.join(name)) {
+                    Ok(b) if b == *bytes => {}
+                    Ok(_) => {
+                        return (
+                            Some(format!("the old container is still at the destination but its file {name}, which the new creation does not produce, was modified")),
+                            "bad",
+                        )
+                    }
+                    Err(_) => {
+                        return (
+                            Some(format!("the old container is still at the destination but its file {name}, which the new creation does not produce, is gone")),
+                            "bad",
+                        )
+                    }
+                }
+            }
             return (None, "old-kept");
         }
     }
@@ -654,7 +716,7 @@ pub fn worker_main(args: &Args, w: usize, n: usize) -> ! {
         std::fs::write(
             &sc_file,
             json!({"id": s.id, "packaging": s.packaging.name(), "comp": if s.comp == Comp::None {"none"} else {"zstd"},
-                   "n": s.n, "preexisting": s.preexisting, "sim_source": s.sim_source, "extra": s.extra, "seed": s.seed})
+                   "n": s.n, "preexisting": s.preexisting, "sim_source": s.sim_source, "extra": s.extra, "old_packaging": s.old_packaging.map(|p| p.name()), "seed": s.seed})
             .to_string(),
         )
         .unwrap();
@@ -869,7 +931,7 @@ pub fn replay_main(args: &Args, file: &str) -> ! {
     std::fs::write(
         &sc_file,
         json!({"id": s.id, "packaging": s.packaging.name(), "comp": if s.comp == Comp::None {"none"} else {"zstd"},
-               "n": s.n, "preexisting": s.preexisting, "sim_source": s.sim_source, "extra": s.extra, "seed": s.seed})
+               "n": s.n, "preexisting": s.preexisting, "sim_source": s.sim_source, "extra": s.extra, "old_packaging": s.old_packaging.map(|p| p.name()), "seed": s.seed})
         .to_string(),
     )
     .unwrap();
